@@ -15,7 +15,7 @@ REAL = ['onl.sim.core.Environment (through TapEnvironment subclass)', 'onl.sim.e
 STUBS = ['process bodies are the harness interpreter body(); plain callbacks are harness closures']
 ASSUMPTIONS = ['occurrence class (urgent/normal) is derived from the event type, not from the priority passed',
                'TapEnvironment only observes schedule()/step() and prepends one probe callback']
-PROBES = ['float_delays_on_huge_integer_clock', 'observed_without_probes', 'long_run_2pow20_events', 'instants_ge3', 'urgent_and_normal_same_instant', 'until_coincides_normal', 'zero_chain_ge3',
+PROBES = ['compared_with_unprobed_twin', 'float_delays_on_huge_integer_clock', 'observed_without_probes', 'long_run_2pow20_events', 'instants_ge3', 'urgent_and_normal_same_instant', 'until_coincides_normal', 'zero_chain_ge3',
           'neg_timeout', 'interrupt_issued', 'until_refused']
 
 
@@ -76,6 +76,8 @@ def gen(rng, tier):
         prof.top_timeouts = 8
         prof.handlers = ['cont']
     case = gen_program(rng, prof)
+    if rng.random() < 0.25:
+        case['twin'] = True
     if rng.random() < 0.25:
         # observed without probe callbacks: nothing is added to any event's callbacks list (code that looks at that list
         # behaves as in production); the order clause then rests on the clock and on the bodies' own observations
@@ -177,6 +179,14 @@ def check(log, quiescent):
                     viol.append(('C01.4', 'refused run(until=%r) still triggered an occurrence' % (r[5],)))
             elif r[4] == 'until' and r[6] == 'illegal-accepted':
                 viol.append(('C01.4', 'run(until=%r) at now=%r was not refused' % (r[5], r[8])))
+    # a process that has ended is an occurrence like any other: triggered when its body ends, taking effect in its turn
+    ended = [r[4] for r in log if r[0] == 'E']
+    triggered_procs = set(r[2] for r in log if r[0] == 'T' and r[3] == 'proc')
+    for pid_ in ended:
+        if pid_ not in triggered_procs:
+            viol.append(('C01.3', 'process %s ended but its termination was never triggered as an occurrence of that instant '
+                         '(whoever joins it is served out of turn)' % pid_))
+            break
     if quiescent and stats.get('observed_without_probes'):
         # without probes "took effect" is not recorded per occurrence - but every kernel step processes exactly one
         # occurrence, so at an empty agenda the steps taken must number the occurrences triggered
@@ -261,6 +271,14 @@ def run(case):
     # body-level resumption instants; a resumption after the first yield of a timeout created at the
     # yield instant (creation and yield are one action in body())
     timeout_body_check(env.log, viol, stats)
+    if case.get('twin') and not case.get('noprobe') and not case.get('long_run'):
+        # the same program with no probe call-backs anywhere: the bodies must tell the same story
+        from ..kprog import unprobed_twin, body_view, first_difference
+        stats['compared_with_unprobed_twin'] = 1
+        d = first_difference(body_view(env.log), unprobed_twin(case, 4000))
+        if d is not None:
+            viol.append(('C01.6', 'the program runs differently when no call-back watches its events: observation #%d of '
+                         'the process bodies is %r with probes and %r without' % d))
     if case.get('long_run'):
         stats['long_run_2pow20_events'] = 1
     if case.get('mixed_clock'):
